@@ -113,6 +113,8 @@ Proof.
 Qed.
 Lemma replays_note_skip m : replays (note_skip m).
 Proof. intros s _ _ c; constructor; cbn; auto. Qed.
+Lemma replays_note_ood m : replays (note_ood m).
+Proof. intros s _ _ c; constructor; cbn; auto. Qed.
 Lemma replays_failOnError l : replays (failOnError l).
 Proof.
   intros s _ _ c. unfold failOnError. cbn [with_src ts].
@@ -625,7 +627,7 @@ Section InterpReplay.
       match r with
       | Err XFuel => throw XFuel
       | Err (XInvalid m) =>
-          if inner && internal_msg m then _ <- mark_dirty ;; cleanup_loop crun inner k (Some (XInvalid m))
+          if inner && internal_msg m then _ <- mark_dirty ;; _ <- note_ood m ;; cleanup_loop crun inner k last
           else _ <- (if internal_msg m then mark_dirty else ret tt) ;; _ <- note_skip m ;; cleanup_loop crun inner k last
       | Err e => cleanup_loop crun inner k (Some e)
       | Ok _ => cleanup_loop crun inner k last
@@ -646,7 +648,8 @@ Section InterpReplay.
       { unfold h. destruct (res (crun c s2)) as [v|e]; [apply IH; lia|].
         destruct e; try (apply IH; lia).
         - destruct (inner && internal_msg m).
-          + apply replays_bind; [apply replays_mark_dirty|intros _; apply IH; lia].
+          + apply replays_bind; [apply replays_mark_dirty|intros _].
+            apply replays_bind; [apply replays_note_ood|intros; apply IH; lia].
           + apply replays_bind; [destruct (internal_msg m); [apply replays_mark_dirty|apply replays_ret]|intros _].
             apply replays_bind; [apply replays_note_skip|intros; apply IH; lia].
         - apply replays_throw. }
@@ -673,7 +676,7 @@ Section InterpReplay.
     unfold try_. cbn [res]. destruct (res (crun c _)) as [v|e0]; [apply IH|].
     destruct e0; try apply IH.
     - destruct (inner && internal_msg m).
-      + unfold bind at 1. cbn [mark_dirty res post]. apply IH.
+      + unfold bind at 1. cbn [mark_dirty res post]. unfold bind at 1. cbn [note_ood res post]. apply IH.
       + unfold bind at 1. destruct (internal_msg m); cbn [mark_dirty ret res post]; unfold bind at 1; cbn [note_skip res post]; apply IH.
     - cbn; congruence.
   Qed.
@@ -686,8 +689,8 @@ Section InterpReplay.
     - cbn [res]. intros H. injection H as <-. eapply cleanup_loop_err; eauto.
   Qed.
 
-  (* T.cleanup reports an invalid-data exception only for the inner T of a Custom generator function, only when a
-     generator ran out of data inside a cleanup function, and such a run is flagged *)
+  (* T.cleanup never reports an invalid-data exception: a skip requested by a cleanup function is noted on the T
+     (note_skip), a generator that ran out of data inside a cleanup function of a Custom's inner T likewise (note_ood) *)
   Lemma dirty_wapp_r a b : dirty b = true -> dirty (wapp a b) = true.
   Proof. intros H. unfold wapp; cbn [dirty]. rewrite H. apply orb_true_r. Qed.
   Lemma dirty_wapp_r_l a b : dirty a = true -> dirty (wapp a b) = true.
@@ -697,52 +700,38 @@ Section InterpReplay.
     bind m f s = mkOut (res (f a (post (m s)))) (post (f a (post (m s)))) (wapp (w (m s)) (w (f a (post (m s))))).
   Proof. intros H. unfold bind. rewrite H. reflexivity. Qed.
   Lemma cleanup_loop_invalid inner : forall fuel last s m,
-    res (cleanup_loop crun inner fuel last s) = Ok (Some (XInvalid m)) ->
-    last = Some (XInvalid m) \/
-    (inner = true /\ internal_msg m = true /\ dirty (w (cleanup_loop crun inner fuel last s)) = true).
+    res (cleanup_loop crun inner fuel last s) = Ok (Some (XInvalid m)) -> last = Some (XInvalid m).
   Proof.
     induction fuel as [|f IH]; intros last s m; cbn [cleanup_loop]; [cbn; discriminate|].
     assert (Hpop : exists oc, res (pop_cleanup s) = Ok oc).
     { unfold pop_cleanup. destruct (cleanups (ts s)) as [|[id c] rest]; [|destruct (cleaning (ts s))]; eexists; reflexivity. }
     destruct Hpop as [oc Hpop]. rewrite (bind_ok_out _ _ pop_cleanup _ s oc Hpop). cbn [res w].
-    destruct oc as [c|]; [|cbn [ret res]; intros H; injection H as H; left; exact H].
+    destruct oc as [c|]; [|cbn [ret res]; intros H; injection H as H; exact H].
     unfold try_. cbn [res w]. set (s1 := post (pop_cleanup s)).
     destruct (res (crun c s1)) as [v|[m0|m0 st0|m0 st0|]].
-    - intros H. destruct (IH _ _ _ H) as [E|(E1 & E2 & E3)]; [left; exact E|right].
-      split; [exact E1|split; [exact E2|]]. apply dirty_wapp_r, dirty_wapp_r. exact E3.
-    - destruct (inner && internal_msg m0) eqn:Eb.
-      + apply andb_true_iff in Eb. destruct Eb as [-> Ei].
-        rewrite (bind_ok_out _ _ mark_dirty _ _ tt eq_refl). cbn [res w]. intros H. right. split; [reflexivity|]. split.
-        { destruct (IH _ _ _ H) as [E|(_ & E2 & _)]; [injection E as <-; exact Ei|exact E2]. }
-        apply dirty_wapp_r, dirty_wapp_r. reflexivity.
+    - intros H. exact (IH _ _ _ H).
+    - destruct (inner && internal_msg m0).
+      + rewrite (bind_ok_out _ _ mark_dirty _ _ tt eq_refl). cbn [res].
+        rewrite (bind_ok_out _ _ (note_ood m0) _ _ tt eq_refl). cbn [res].
+        intros H. exact (IH _ _ _ H).
       + assert (Hn : forall s2,
                   res ((_ <- (if internal_msg m0 then mark_dirty else ret tt) ;; _ <- note_skip m0 ;; cleanup_loop crun inner f last) s2)
-                  = res (cleanup_loop crun inner f last (post (note_skip m0 s2))) /\
-                  (dirty (w (cleanup_loop crun inner f last (post (note_skip m0 s2)))) = true ->
-                   dirty (w ((_ <- (if internal_msg m0 then mark_dirty else ret tt) ;; _ <- note_skip m0 ;; cleanup_loop crun inner f last) s2)) = true)).
-        { intros s2. destruct (internal_msg m0); unfold bind; cbn [mark_dirty ret note_skip res post w]; (split; [reflexivity|]);
-            intros Hd; repeat apply dirty_wapp_r; exact Hd. }
-        destruct (Hn (post (crun c s1))) as [N1 N2]. rewrite N1. intros H.
-        destruct (IH _ _ _ H) as [E|(E1 & E2 & E3)]; [left; exact E|right].
-        split; [exact E1|split; [exact E2|]]. apply dirty_wapp_r, dirty_wapp_r, N2. exact E3.
-    - intros H. destruct (IH _ _ _ H) as [E|(E1 & E2 & E3)]; [discriminate|right].
-      split; [exact E1|split; [exact E2|]]. apply dirty_wapp_r, dirty_wapp_r. exact E3.
-    - intros H. destruct (IH _ _ _ H) as [E|(E1 & E2 & E3)]; [discriminate|right].
-      split; [exact E1|split; [exact E2|]]. apply dirty_wapp_r, dirty_wapp_r. exact E3.
+                  = res (cleanup_loop crun inner f last (post (note_skip m0 s2)))).
+        { intros s2. destruct (internal_msg m0); unfold bind; cbn [mark_dirty ret note_skip res post w]; reflexivity. }
+        rewrite Hn. intros H. exact (IH _ _ _ H).
+    - intros H. pose proof (IH _ _ _ H) as E. discriminate E.
+    - intros H. pose proof (IH _ _ _ H) as E. discriminate E.
     - cbn. discriminate.
   Qed.
-  Lemma cleanup_invalid inner s m :
-    res (cleanup LF crun inner s) = Ok (Some (XInvalid m)) ->
-    inner = true /\ internal_msg m = true /\ dirty (w (cleanup LF crun inner s)) = true.
+  Lemma cleanup_invalid inner s m : res (cleanup LF crun inner s) <> Ok (Some (XInvalid m)).
   Proof.
-    unfold cleanup. rewrite (bind_ok_out _ _ begin_cleanup _ s tt eq_refl). cbn [res w].
+    unfold cleanup. rewrite (bind_ok_out _ _ begin_cleanup _ s tt eq_refl). cbn [res].
     set (s0 := post (begin_cleanup s)).
     pose proof (cleanup_loop_invalid inner LF None s0 m) as L.
     destruct (res (cleanup_loop crun inner LF None s0)) as [r|e0] eqn:El.
-    - rewrite (bind_ok_out _ _ (cleanup_loop crun inner LF None) _ s0 r El). cbn [res w].
-      unfold bind. cbn [end_cleanup ret res post w]. intros H. injection H as ->.
-      destruct (L eq_refl) as [E|(E1 & E2 & E3)]; [discriminate|].
-      split; [exact E1|split; [exact E2|]]. apply dirty_wapp_r. unfold wapp at 1. cbn [dirty]. rewrite E3. reflexivity.
+    - rewrite (bind_ok_out _ _ (cleanup_loop crun inner LF None) _ s0 r El). cbn [res].
+      unfold bind. cbn [end_cleanup ret res post]. intros H. injection H as ->.
+      discriminate (L eq_refl).
     - unfold bind. rewrite El. cbn. discriminate.
   Qed.
 
@@ -763,10 +752,13 @@ Section InterpReplay.
                  c <- cleanup LF crun true ;;
                  t0 <- get_ts ;;
                  match c, r with
-                 | Some (XInvalid m), _ => match failed t0 with Some _ => throw (XInvalid m) | None => ret None end
+                 | None, Ok v =>
+                     match ood t0 with
+                     | Some m => match failed t0 with Some _ => throw (XInvalid m) | None => ret None end
+                     | None => ret (Some v)
+                     end
                  | Some e, Err (XInvalid m) => _ <- (if internal_msg m then mark_dirty else ret tt) ;; throw e
                  | Some e, _ => throw e
-                 | None, Ok v => ret (Some v)
                  | None, Err (XInvalid m) => match failed t0 with Some _ => throw (XInvalid m) | None => ret None end
                  | None, Err e => throw e
                  end)).
@@ -774,6 +766,7 @@ Section InterpReplay.
       apply replays_bind; [apply replays_get_ts|intros t0].
       destruct c as [[]|]; destruct r as [v|[]]; try apply replays_throw; try apply replays_ret;
         try (destruct (failed t0); [apply replays_throw|apply replays_ret]);
+        try (destruct (ood t0); [destruct (failed t0); [apply replays_throw|apply replays_ret]|apply replays_ret]);
         (apply replays_bind; [destruct (internal_msg _); [apply replays_mark_dirty|apply replays_ret]|intros; apply replays_throw]). }
     destruct r as [v|[]]; try exact H. apply replays_throw.
   Qed.
@@ -798,10 +791,8 @@ Section InterpReplay.
     - unfold custom_handler in *. unfold bind at 1. unfold bind at 1 in Hg. unfold bind at 1 in Hc.
       match goal with |- context [cleanup LF crun true ?s0] => set (s1 := s0) in * end.
       destruct (res (cleanup LF crun true s1)) as [[e|]|e] eqn:Ec.
-      + assert (Hd : forall m', e = XInvalid m' -> dirty (w (cleanup LF crun true s1)) = true).
-        { intros m' ->. exact (proj2 (proj2 (cleanup_invalid true s1 m' Ec))). }
-        destruct e as [m'|m' st'|m' st'|].
-        * cbn [w]. apply dirty_wapp_r_l. exact (Hd m' eq_refl).
+      + destruct e as [m'|m' st'|m' st'|].
+        * destruct (cleanup_invalid true s1 m' Ec).
         * unfold bind at 1. cbn [get_ts res post w]. rewrite Hi. unfold bind at 1. cbn. rewrite !orb_true_r. reflexivity.
         * unfold bind at 1. cbn [get_ts res post w]. rewrite Hi. unfold bind at 1. cbn. rewrite !orb_true_r. reflexivity.
         * unfold bind at 1. cbn [get_ts res post w]. rewrite Hi. unfold bind at 1. cbn. rewrite !orb_true_r. reflexivity.
